@@ -78,6 +78,7 @@ type World struct {
 	assign map[int]int8
 
 	steps int
+	cur   ssa.Instruction      // instruction being interpreted (positions of opaque symbols)
 	small [2*smallMax + 1]*Int // shared concrete words of small absolute value
 
 	// hooks (spec-driven)
@@ -143,6 +144,10 @@ func (w *World) symInt(v int) *Int {
 // opaqueInt is a fresh symbol for a value that left the domain.
 func (w *World) opaqueInt(rng Itv, why string) *Int {
 	w.Stats["opaque symbols"]++
+	if w.cur != nil {
+		pos, _ := w.where(w.cur)
+		why += " at " + pos
+	}
 	v := w.newVar(VarInfo{Kind: VOpaque, Name: fmt.Sprintf("opaque#%d (%s)", len(w.vars), why), Lo: rng.Lo, Hi: rng.Hi, Why: why})
 	return w.symInt(v)
 }
